@@ -881,6 +881,8 @@ func Gen(w *bufio.Writer, seed uint64, tier string) {
 	k := int(seed)
 	emit := func(tag string, file []byte, hist [][]step) {
 		fmt.Fprintf(w, "C18 hist %s %s %s\n", tag, hx.Hex(file), fmtHistory(hist))
+		// the same file x history once more with relic's in-memory tables dumped around every operation (writer.go)
+		fmt.Fprintf(w, "C18 wr %s %s %s\n", tag, hx.Hex(file), fmtHistory(hist))
 	}
 	for round := 0; round < rounds; round++ {
 		for _, shift := range []int{9, 12} {
@@ -961,6 +963,8 @@ func Gen(w *bufio.Writer, seed uint64, tier string) {
 			emit("fixture", fx, genHistory(r, fx, maxSessions, k, false))
 		}
 	}
+	// (d) allocation layer on synthetic tables (writer.go)
+	genWriter(w, hx.NewRng(seed^0xa110c), tier)
 	// (c) digest: tar vs direct on every generated shape once more, unmodified
 	for _, shift := range []int{9, 12} {
 		for _, v := range []string{"plain", "nested", "nested+presigned", "gaps+presigned", "nested+nomini", "emptystorage"} {
@@ -1160,6 +1164,16 @@ func Impl() {
 			return "ok " + renderNode(t.Root)
 		case "dg", "sv":
 			return MsiHandle(f)
+		case "alloc":
+			return implAlloc(tmp, f)
+		case "free":
+			return implFree(f)
+		case "adds":
+			seq++
+			return implAdds(tmp, seq, f)
+		case "wr":
+			seq++
+			return implWr(tmp, seq, f)
 		case "digest":
 			seq++
 			p := filepath.Join(tmp, fmt.Sprintf("d%d.msi", seq))
